@@ -42,7 +42,7 @@ def norm(t):
         if t and t[0] == 'ok' and isinstance(t[1], tuple) and t[1] and t[1][0] == 'call' and t[1][1].endswith('::get') and len(t[1][2]) == 2:
             return ('call', 'index', (norm(t[1][2][0]), norm(t[1][2][1])))
         if t and t[0] == 'closure':
-            return ('closure',)
+            return ('closure', ('fn', 0))
         return tuple(norm(x) for x in t)
     return t
 
